@@ -464,3 +464,5 @@ func hexDecode(s string) ([]byte, error) {
 	_, err := fmt.Sscanf(s, "%x", &b)
 	return b, err
 }
+
+func bech32Decode(s string) (string, []byte, error) { return verifhook.Bech32Decode(s) }
